@@ -373,7 +373,7 @@ func TestC08Tamper(t *testing.T) {
 				if !valid(class, kind) {
 					continue
 				}
-				reps := pick(2, 6)
+				reps := pick(3, 6)
 				for rep := 0; rep < reps; rep++ {
 					op := TamperOp{Class: class, Kind: kind, Pick: rng.Intn(1000), Arg: rng.Intn(100000)}
 					when := "before-load"
@@ -402,7 +402,7 @@ func TestC08Tamper(t *testing.T) {
 			}
 		}
 	}
-	nm := pick(400, 12000)
+	nm := pick(900, 12000)
 	for i := 0; i < nm; i++ { // pairs and triples
 		tc := &tamperCase{Start: pickOne(rng, starts), When: pickOne(rng, []string{"before-load", "after-crash", "live"}), Pool: pickOne(rng, []int{0, 1, 2, 257})}
 		if tc.When == "after-crash" {
